@@ -637,32 +637,14 @@ theorem ntt120_avx_crt_lane_value (x q mu p32 p16 crt : W) (c : CrtC q mu p32 p1
     (e32 : p32.toNat ≡ 2 ^ 32 * crt.toNat [MOD q.toNat]) (e16 : p16.toNat ≡ 2 ^ 16 * crt.toNat [MOD q.toNat]) :
     (reduceBAndApplyCrt x q mu p32 p16 crt).toNat = (x.toNat % q.toNat * crt.toNat) % q.toNat :=
   reduceBAndApplyCrt_value x q mu p32 p16 crt c hx e32 e16
-/-- the Primes30 constants (`Q`, `BARRETT_MU`, `POW32_CRT`, `POW16_CRT`, `CRT_CST` as C07's `compactCst` computes them) are in range
-and congruent to what their names say -/
-theorem primes30_crtC (k : Nat) (hk : k < 4) :
-    let q := Ntt120.primes30.qs.getD k 1
-    let crt := Ntt120.primes30.crt.getD k 0
-    let c := Ntt120.compactCst q crt
-    CrtC (BitVec.ofNat 64 q) (BitVec.ofNat 64 c.1) (BitVec.ofNat 64 c.2.1) (BitVec.ofNat 64 c.2.2) (BitVec.ofNat 64 crt) ∧
-    c.2.1 ≡ 2 ^ 32 * crt [MOD q] ∧ c.2.2 ≡ 2 ^ 16 * crt [MOD q] := by
-  have h : ∀ k, k < 4 →
-      (let q := Ntt120.primes30.qs.getD k 1
-       let crt := Ntt120.primes30.crt.getD k 0
-       let c := Ntt120.compactCst q crt
-       (2 ^ 29 < q ∧ q < 2 ^ 30 ∧ c.1 = 2 ^ 61 / q ∧ c.2.1 < q ∧ c.2.2 < q ∧ crt < q) ∧
-       c.2.1 % q = (2 ^ 32 * crt) % q ∧ c.2.2 % q = (2 ^ 16 * crt) % q) := by decide +kernel
-  obtain ⟨⟨a1, a2, a3, a4, a5, a6⟩, b1, b2⟩ := h k hk
-  have w : ∀ x : Nat, x < 2 ^ 61 + 1 → (BitVec.ofNat 64 x).toNat = x := fun x hx => by
-    rw [BitVec.toNat_ofNat]; exact Nat.mod_eq_of_lt (by omega)
-  have hmu : (Ntt120.compactCst (Ntt120.primes30.qs.getD k 1) (Ntt120.primes30.crt.getD k 0)).1 < 2 ^ 61 + 1 := by
-    rw [a3]; exact Nat.lt_succ_of_le (Nat.div_le_self _ _)
-  refine ⟨⟨?_, ?_, ?_, ?_, ?_, ?_⟩, b1, b2⟩
-  · rw [w _ (by omega)]; exact a1
-  · rw [w _ (by omega)]; exact a2
-  · rw [w _ hmu, w _ (by omega)]; exact a3
-  · rw [w _ (by omega), w _ (by omega)]; exact a4
-  · rw [w _ (by omega), w _ (by omega)]; exact a5
-  · rw [w _ (by omega), w _ (by omega)]; exact a6
+/-- the Primes30 constants (`Q_VEC`, `BARRETT_MU`, `POW32_CRT`, `POW16_CRT`, `CRT_VEC` — as C07's `compactCst` computes them) are in
+range and congruent to what their names say -/
+theorem ntt120_avx_primes30_crt_constants (k : Nat) (hk : k < 4) :
+    CrtC (BitVec.ofNat 64 (Q30 k)) (BitVec.ofNat 64 (Ntt120.compactCst (Q30 k) (CRT30 k)).1) (BitVec.ofNat 64 (Ntt120.compactCst (Q30 k) (CRT30 k)).2.1)
+      (BitVec.ofNat 64 (Ntt120.compactCst (Q30 k) (CRT30 k)).2.2) (BitVec.ofNat 64 (CRT30 k)) ∧
+    (BitVec.ofNat 64 (Ntt120.compactCst (Q30 k) (CRT30 k)).2.1).toNat ≡ 2 ^ 32 * (BitVec.ofNat 64 (CRT30 k)).toNat [MOD (BitVec.ofNat 64 (Q30 k)).toNat] ∧
+    (BitVec.ofNat 64 (Ntt120.compactCst (Q30 k) (CRT30 k)).2.2).toNat ≡ 2 ^ 16 * (BitVec.ofNat 64 (CRT30 k)).toNat [MOD (BitVec.ofNat 64 (Q30 k)).toNat] :=
+  ⟨(primes30_crtC k hk).1, (primes30_crtC k hk).2.1, (primes30_crtC k hk).2.2.1⟩
 /-- `crt_accumulate_avx2` is the exact `Σ_k t_k·(Q/q_k)` from the three 32-bit limbs: no lane sum, no `u128` addition wraps -/
 theorem ntt120_avx_crt_accumulate_exact (t hi mid lo : V4) (r : AccRange t hi mid lo) :
     (crtAccumulate t hi mid lo).toNat
@@ -670,6 +652,19 @@ theorem ntt120_avx_crt_accumulate_exact (t hi mid lo : V4) (r : AccRange t hi mi
       + t.l1.toNat * (hi.l1.toNat * 2 ^ 64 + mid.l1.toNat * 2 ^ 32 + lo.l1.toNat)
       + t.l2.toNat * (hi.l2.toNat * 2 ^ 64 + mid.l2.toNat * 2 ^ 32 + lo.l2.toNat)
       + t.l3.toNat * (hi.l3.toNat * 2 ^ 64 + mid.l3.toNat * 2 ^ 32 + lo.l3.toNat) := crtAccumulate_eq t hi mid lo r
+
+/-- the table reduction of the scalar tail is exact and never indexes past `TOTAL_Q_MULT[3]` -/
+theorem ntt120_avx_crt_tail_exact (Q S : Nat) (hQ1 : 4 * (2 ^ 120 - Q) ≤ Q) (hQ2 : Q < 2 ^ 120) (hS : S < 4 * Q) (v : BitVec 128)
+    (hv : v.toNat = S) : crtTail Q v = centre Q (S % Q) ∧ (v >>> 120).toNat ≤ 3 := crtTail_eq Q S hQ1 hQ2 hS v hv
+/-- **whole `b_to_znx128_avx2` coefficient = `b_to_znx128_ref`** (Primes30, the set the AVX2 back end is fixed to), for every q120b
+word in the documented range -/
+theorem ntt120_avx_b_to_znx128_eq_ref (x : V4) (h0 : x.l0.toNat < Q30 0 * 2 ^ 33) (h1 : x.l1.toNat < Q30 1 * 2 ^ 33)
+    (h2 : x.l2.toNat < Q30 2 * 2 ^ 33) (h3 : x.l3.toNat < Q30 3 * 2 ^ 33) :
+    bToZnx128AvxCoef x qV muV p32V p16V crtV hiV midV loV (Ntt120.bigQ Ntt120.primes30)
+      = Ntt120.bToZnx128Core Ntt120.primes30 x.l0.toNat x.l1.toNat x.l2.toNat x.l3.toNat := bToZnx128Avx_eq_ref x h0 h1 h2 h3
+example : bToZnx128AvxCoef ⟨BitVec.ofNat 64 (Q30 0 * 2 ^ 33 - 1), 5#64, BitVec.ofNat 64 (Q30 2 * 2 ^ 33 - 1), 0#64⟩ qV muV p32V p16V crtV hiV midV loV
+      (Ntt120.bigQ Ntt120.primes30)
+    = Ntt120.bToZnx128Core Ntt120.primes30 (Q30 0 * 2 ^ 33 - 1) 5 (Q30 2 * 2 ^ 33 - 1) 0 := by decide +kernel
 
 /-! ### loops: four prime lanes per word, whole arrays, whole transforms -/
 
